@@ -95,6 +95,12 @@ func schedule(r *rand.Rand, p *vm.Plan, mode string, maxDurNs int64, horizon int
 		if r.Intn(2) == 0 {
 			p.Tape = randTape(r, 32+r.Intn(256))
 		}
+		// half of the stalled runs let goroutines that outlive their call (a worker after a
+		// timeout) keep running in the middle of later calls instead of draining them first
+		p.Lazy = r.Intn(2) == 0
+		if p.Lazy && len(p.Tape) == 0 {
+			p.Tape = randTape(r, 64)
+		}
 		n := 1 + r.Intn(3)
 		for i := 0; i < n; i++ {
 			var d int64
